@@ -1,7 +1,459 @@
-//! C09 engine (not yet built).
-use crate::common::{CaseWriter, Opts};
+//! C09 — numbers are IEEE-754 doubles with checked range and coherent comparison.
+//! Runs every numeric operator and std math function of the REAL evaluator (functions compiled
+//! once from source text, called with raw doubles) on all pairs of a boundary-dense set of
+//! doubles, plus sort/uniq/set/setMember on arrays and clamp on triples drawn from it.  Numbers
+//! travel as 16-hex-digit bit patterns; errors as a small class enum.
+use std::collections::BTreeMap;
+
+use jrsonnet_evaluator::{
+	error::ErrorKind, function::NativeFn, typed::FromUntyped, Val,
+};
+use serde_json::{json, Map, Value};
+
+use crate::common::{guarded, new_state, CaseWriter, Opts, Rng};
+
+type F1 = NativeFn!((f64) -> Val);
+type F2 = NativeFn!((f64, f64) -> Val);
+type F3 = NativeFn!((f64, f64, f64) -> Val);
+type FA = NativeFn!((Vec<f64>) -> Val);
+type FAM = NativeFn!((f64, Vec<f64>) -> Val);
+
+fn hex(x: f64) -> String {
+	format!("{:016x}", x.to_bits())
+}
+
+fn err_cls(e: &jrsonnet_evaluator::Error) -> String {
+	let cls = match e.error() {
+		ErrorKind::DivisionByZero => "div0",
+		ErrorKind::ConvertNumValue(_) => "nonfinite",
+		ErrorKind::RuntimeError(m) => {
+			let m: &str = m;
+			if m.contains("outside of safe integer range") {
+				"range"
+			} else if m.contains("shift by negative exponent") {
+				"negshift"
+			} else if m.contains("left shift would overflow") {
+				"overflow"
+			} else {
+				"runtime"
+			}
+		}
+		ErrorKind::TypeError(_) | ErrorKind::TypeMismatch(..) => "type",
+		_ => "other",
+	};
+	format!("err:{cls}")
+}
+
+/// canonical answer of one call; `zero_canon`: the sign of a zero result is not compared
+fn show(r: Result<jrsonnet_evaluator::Result<Val>, String>, zero_canon: bool, as_int: bool) -> String {
+	match r {
+		Ok(Ok(Val::Num(n))) => {
+			let v = n.get();
+			if !v.is_finite() {
+				return format!("NONFINITE-VALUE:{v}");
+			}
+			if as_int {
+				return format!("{}", v as i64);
+			}
+			if zero_canon && v == 0.0 {
+				hex(0.0)
+			} else {
+				hex(v)
+			}
+		}
+		Ok(Ok(Val::Bool(b))) => if b { "true".into() } else { "false".into() },
+		Ok(Ok(_)) => "other-type".into(),
+		Ok(Err(e)) => err_cls(&e),
+		Err(p) => format!("panic:{}", p.chars().take(60).collect::<String>()),
+	}
+}
+
+fn show_arr(r: Result<jrsonnet_evaluator::Result<Val>, String>) -> Value {
+	match r {
+		Ok(Ok(Val::Arr(a))) => {
+			let mut out = Vec::new();
+			for v in a.iter() {
+				out.push(Value::String(show(Ok(v), true, false)));
+			}
+			Value::Array(out)
+		}
+		Ok(Ok(_)) => json!(["other-type"]),
+		Ok(Err(e)) => json!([err_cls(&e)]),
+		Err(p) => json!([format!("panic:{p}")]),
+	}
+}
+
+/// boundary-dense doubles; `small` = the quick-tier subset
+fn boundary(full: bool) -> Vec<f64> {
+	let fb = f64::from_bits;
+	let mut v: Vec<f64> = Vec::new();
+	let p = |e: i32| 2f64.powi(e);
+	// zeros, subnormals, smallest normals
+	v.extend([0.0, -0.0, fb(1), fb(2), fb(0x000f_ffff_ffff_ffff), f64::MIN_POSITIVE, fb(0x0010_0000_0000_0001)]);
+	// one ulp apart around 1 and around a fraction
+	v.extend([1.0, fb(0x3ff0_0000_0000_0001), fb(0x3fef_ffff_ffff_ffff), 0.1, fb(0x3fb9_9999_9999_999b), 0.2, 0.3]);
+	// epsilon-sized magnitudes (numeric equality must be exact)
+	v.extend([f64::EPSILON, f64::EPSILON / 2.0, 1e-17, 1e-16, 3e-16, 1.0 + f64::EPSILON]);
+	// safe-integer boundary and neighbours
+	v.extend([p(53) - 1.0, p(53), p(53) + 2.0, p(53) - 2.0, p(52), p(52) + 0.5, p(53) - 1.5]);
+	// i64 / u64 / shift boundaries
+	v.extend([p(63), p(63) - 1024.0, p(64), p(62), p(31), p(32), p(31) - 1.0, p(32) - 1.0]);
+	// max, huge, tiny
+	v.extend([f64::MAX, fb(0x7fef_ffff_ffff_fffe), 1e308, 1e300, 1e200, 1.5e154, 1e-300, 1e-200, 1e-308, 4.9e-324]);
+	// small integers (shift counts around 0, 1, 10, 11, 52, 53, 62, 63, 64, 65, 127, 128)
+	v.extend([2.0, 3.0, 4.0, 5.0, 7.0, 8.0, 10.0, 11.0, 12.0, 16.0, 52.0, 53.0, 62.0, 63.0, 64.0, 65.0, 127.0, 128.0, 255.0, 256.0, 1023.0, 1024.0, 4095.0, 4096.0]);
+	// fractions
+	v.extend([0.5, 1.5, 2.5, 3.5, 0.25, 0.75, 0.49999999999999994, 1e-1 + 2e-1, 2.0 / 3.0, 63.5, 64.5, 1.0e15 + 0.5]);
+	// angles / math constants
+	v.extend([std::f64::consts::PI, std::f64::consts::E, std::f64::consts::FRAC_PI_2, 180.0, 90.0, 709.0, 710.0, 745.0]);
+	// integers with patterns for bitwise ops
+	v.extend([0x5555_5555_5555u64 as f64, 0xAAAA_AAAA_AAAAu64 as f64, 0x1F_FFFF_FFFF_FFFFu64 as f64, 0xFFFF_FFFFu64 as f64, 0x1_0000_0001u64 as f64, 4503599627370497.0]);
+	if full {
+		for e in [-1074, -1073, -1023, -1022, -1021, -537, -100, -53, -52, -27, -1, 1, 26, 27, 51, 54, 55, 100, 511, 512, 1022, 1023] {
+			v.push(p(e));
+		}
+		for k in [1u64, 2, 3] {
+			v.push(fb(1.0f64.to_bits() + k + 1));
+			v.push(fb(p(53).to_bits() - k - 1));
+			v.push(fb(p(53).to_bits() + k));
+			v.push(fb(f64::MAX.to_bits() - k - 1));
+			v.push(fb(0x0010_0000_0000_0000 - k));
+		}
+		v.extend([6.0, 9.0, 13.0, 15.0, 17.0, 31.0, 32.0, 33.0, 100.0, 1000.0, 65535.0, 65536.0, 1e6, 1e9, 1e15, 1e16, 123456789.0, 0.001, 0.125, 1.0 / 3.0, 7.25, 99.99]);
+	}
+	// negatives of everything
+	let neg: Vec<f64> = v.iter().map(|x| -*x).collect();
+	v.extend(neg);
+	// dedup by bits, keep order
+	let mut seen = std::collections::HashSet::new();
+	v.retain(|x| x.is_finite() && seen.insert(x.to_bits()));
+	v
+}
+
+fn random_double(rng: &mut Rng) -> f64 {
+	loop {
+		let b = match rng.below(4) {
+			0 => rng.next(),
+			1 => {
+				// integers in and around the safe range
+				let m = rng.next() % (1u64 << 55);
+				let x = m as f64;
+				(if rng.chance(1, 2) { -x } else { x }).to_bits()
+			}
+			2 => {
+				// moderate magnitudes with a fraction
+				let x = (rng.next() % 2_000_000) as f64 / 1024.0 - 900.0;
+				x.to_bits()
+			}
+			_ => {
+				let e = rng.next() % 2047;
+				(rng.next() & 0x800f_ffff_ffff_ffff) | (e << 52)
+			}
+		};
+		let x = f64::from_bits(b);
+		if x.is_finite() {
+			return x;
+		}
+	}
+}
+
+struct Fns {
+	cmp: Vec<(&'static str, F2)>,
+	arith: Vec<(&'static str, F2, bool)>,
+	bits: Vec<(&'static str, F2)>,
+	un: Vec<(&'static str, F1, bool)>,
+	hypot: F2,
+	clamp: F3,
+	sort: FA,
+	uniq: FA,
+	set: FA,
+	member: FAM,
+}
+
+fn magnitude(x: f64) -> usize {
+	let b = x.to_bits() & 0x7fff_ffff_ffff_ffff;
+	(64 - b.leading_zeros()) as usize
+}
 
 pub fn run(opts: &Opts) {
-	let w = CaseWriter::new(&opts.out);
-	w.finish(serde_json::json!({"engine":"c09","cases":0,"rule":"stub"}), &opts.out);
+	let s = new_state();
+	let _g = s.enter();
+	let fv = |code: &str| s.evaluate_snippet("<c09>".to_owned(), code.to_owned()).expect("fn");
+	let f1 = |code: &str| -> F1 { FromUntyped::from_untyped(fv(code)).expect("f1") };
+	let f2 = |code: &str| -> F2 { FromUntyped::from_untyped(fv(code)).expect("f2") };
+	let fns = Fns {
+		cmp: vec![
+			("lt", f2("function(a,b) a<b")),
+			("le", f2("function(a,b) a<=b")),
+			("gt", f2("function(a,b) a>b")),
+			("ge", f2("function(a,b) a>=b")),
+			("eq", f2("function(a,b) a==b")),
+			("ne", f2("function(a,b) a!=b")),
+			("peq", f2("function(a,b) std.primitiveEquals(a,b)")),
+			("seq", f2("function(a,b) std.equals([a],[b])")),
+		],
+		arith: vec![
+			("add", f2("function(a,b) a+b"), false),
+			("sub", f2("function(a,b) a-b"), false),
+			("mul", f2("function(a,b) a*b"), false),
+			("div", f2("function(a,b) a/b"), false),
+			("mod", f2("function(a,b) a%b"), false),
+			("modulo", f2("function(a,b) std.modulo(a,b)"), false),
+			("max", f2("function(a,b) std.max(a,b)"), true),
+			("min", f2("function(a,b) std.min(a,b)"), true),
+			("pow", f2("function(a,b) std.pow(a,b)"), false),
+			("atan2", f2("function(a,b) std.atan2(a,b)"), false),
+		],
+		bits: vec![
+			("and", f2("function(a,b) a&b")),
+			("or", f2("function(a,b) a|b")),
+			("xor", f2("function(a,b) a^b")),
+			("shl", f2("function(a,b) a<<b")),
+			("shr", f2("function(a,b) a>>b")),
+		],
+		un: vec![
+			("neg", f1("function(a) -a"), false),
+			("bitnot", f1("function(a) ~a"), false),
+			("abs", f1("function(a) std.abs(a)"), false),
+			("sign", f1("function(a) std.sign(a)"), false),
+			("floor", f1("function(a) std.floor(a)"), false),
+			("ceil", f1("function(a) std.ceil(a)"), false),
+			("round", f1("function(a) std.round(a)"), false),
+			("isInteger", f1("function(a) std.isInteger(a)"), false),
+			("isDecimal", f1("function(a) std.isDecimal(a)"), false),
+			("deg2rad", f1("function(a) std.deg2rad(a)"), false),
+			("rad2deg", f1("function(a) std.rad2deg(a)"), false),
+			("sqrt", f1("function(a) std.sqrt(a)"), false),
+			("log", f1("function(a) std.log(a)"), false),
+			("log2", f1("function(a) std.log2(a)"), false),
+			("log10", f1("function(a) std.log10(a)"), false),
+			("exp", f1("function(a) std.exp(a)"), false),
+			("sin", f1("function(a) std.sin(a)"), false),
+			("cos", f1("function(a) std.cos(a)"), false),
+			("tan", f1("function(a) std.tan(a)"), false),
+			("asin", f1("function(a) std.asin(a)"), false),
+			("acos", f1("function(a) std.acos(a)"), false),
+			("atan", f1("function(a) std.atan(a)"), false),
+			("mantissa", f1("function(a) std.mantissa(a)"), false),
+			("exponent", f1("function(a) std.exponent(a)"), true),
+		],
+		hypot: f2("function(a,b) std.hypot(a,b)"),
+		clamp: FromUntyped::from_untyped(fv("function(x,lo,hi) std.clamp(x,lo,hi)")).expect("f3"),
+		sort: FromUntyped::from_untyped(fv("function(a) std.sort(a)")).expect("fa"),
+		uniq: FromUntyped::from_untyped(fv("function(a) std.uniq(a)")).expect("fa"),
+		set: FromUntyped::from_untyped(fv("function(a) std.set(a)")).expect("fa"),
+		member: FromUntyped::from_untyped(fv("function(x,a) std.setMember(x, std.set(a))")).expect("fam"),
+	};
+
+	let mut w = CaseWriter::new(&opts.out);
+	let mut rng = Rng::new(opts.seed);
+	let set = boundary(opts.thorough());
+	let n_set = set.len();
+	let mut hist: BTreeMap<&'static str, usize> = BTreeMap::new();
+
+	// replayed / fixed witnesses first (the defects repaired by fix: commits)
+	let mut pairs: Vec<(f64, f64)> = vec![
+		(0.0, 1e-17),
+		(-9007199254740991.0, 12.0),
+		(1.0, 1e300),
+		(1.0, 64.0),
+		(1.0, 63.0),
+		(-1.0, 63.0),
+		(-2.0, 63.0),
+		(3.0, 62.0),
+	];
+	let n_wit = pairs.len();
+	for a in &set {
+		for b in &set {
+			pairs.push((*a, *b));
+		}
+	}
+	let n_rand = if opts.thorough() { 60000 } else { 6000 };
+	for i in 0..n_rand {
+		let a = random_double(&mut rng);
+		let b = match i % 4 {
+			0 => *rng.pick(&set),
+			1 => f64::from_bits(a.to_bits().wrapping_add(rng.below(3) as u64)), // neighbour
+			_ => random_double(&mut rng),
+		};
+		if b.is_finite() {
+			pairs.push((a, b));
+		}
+	}
+
+	// unary
+	let mut un_in: Vec<f64> = set.clone();
+	for _ in 0..(if opts.thorough() { 20000 } else { 3000 }) {
+		un_in.push(random_double(&mut rng));
+	}
+	for a in &un_in {
+		let mut m = Map::new();
+		for (name, f, as_int) in &fns.un {
+			m.insert((*name).into(), Value::String(show(guarded(|| f.call(*a)), false, *as_int)));
+		}
+		w.case(json!({"op":"num.un","a":hex(*a),"size":magnitude(*a),"_a":format!("{a:e}")}), Value::Object(m));
+		*hist.entry("num.un").or_default() += 1;
+	}
+
+	let mut nonfinite_hypot = 0usize;
+	for (i, (a, b)) in pairs.iter().enumerate() {
+		let size = magnitude(*a) + magnitude(*b);
+		let trivial = i >= n_wit && false;
+		let info = format!("{a:e} , {b:e}");
+		let mut m = Map::new();
+		for (name, f) in &fns.cmp {
+			m.insert((*name).into(), Value::String(show(guarded(|| f.call(*a, *b)), false, false)));
+		}
+		w.case(json!({"op":"num.cmp","a":hex(*a),"b":hex(*b),"size":size,"_ab":info,"trivial":trivial}), Value::Object(m));
+		let mut m = Map::new();
+		for (name, f, zc) in &fns.arith {
+			m.insert((*name).into(), Value::String(show(guarded(|| f.call(*a, *b)), *zc, false)));
+		}
+		w.case(json!({"op":"num.arith","a":hex(*a),"b":hex(*b),"size":size,"_ab":info}), Value::Object(m));
+		let mut m = Map::new();
+		for (name, f) in &fns.bits {
+			m.insert((*name).into(), Value::String(show(guarded(|| f.call(*a, *b)), false, false)));
+		}
+		w.case(json!({"op":"num.bits","a":hex(*a),"b":hex(*b),"size":size,"_ab":info}), Value::Object(m));
+		// hypot has no reference on the model side: only "finite or error" is observed
+		let h = show(guarded(|| fns.hypot.call(*a, *b)), false, false);
+		if h.starts_with("NONFINITE") || h.starts_with("panic") {
+			nonfinite_hypot += 1;
+		}
+		*hist.entry("num.pair").or_default() += 1;
+	}
+
+	// clamp on triples (lo <= hi; lo > hi is a panic site that belongs to C04)
+	let tri: Vec<f64> = {
+		let mut t: Vec<f64> = vec![0.0, -0.0, 1.0, -1.0, 0.5, 2.0, 1e-17, f64::EPSILON, f64::MAX, -f64::MAX, 9007199254740991.0, 9007199254740992.0, f64::from_bits(1), f64::from_bits(0x3ff0_0000_0000_0001), 3.0, -2.5, 1e300, -1e-300];
+		if opts.thorough() {
+			t.extend([0.1, 0.3, 7.0, -7.0, 64.0, 1e15, -1e15, 4.9e-324]);
+		}
+		t
+	};
+	let mut n_tri = 0usize;
+	for x in &tri {
+		for lo in &tri {
+			for hi in &tri {
+				if lo > hi {
+					continue;
+				}
+				let r = show(guarded(|| fns.clamp.call(*x, *lo, *hi)), true, false);
+				w.case(
+					json!({"op":"num.clamp","x":hex(*x),"lo":hex(*lo),"hi":hex(*hi),"size":magnitude(*x)+magnitude(*lo)+magnitude(*hi)}),
+					json!({"clamp": r}),
+				);
+				n_tri += 1;
+			}
+		}
+	}
+	hist.insert("num.clamp", n_tri);
+
+	// sort / uniq / set / setMember on arrays (no array mixes -0 and +0 observably: zeros are
+	// compared by value)
+	let n_arr = if opts.thorough() { 20000 } else { 3000 };
+	let near: Vec<f64> = vec![0.0, 1e-17, -1e-17, f64::EPSILON, f64::EPSILON / 2.0, 1.0, 1.0 + f64::EPSILON, f64::from_bits(0x3fef_ffff_ffff_ffff), 1e-16, 2e-16, 3e-16, 0.1 + 0.2, 0.3, -0.0, 2.0, -1.0];
+	for i in 0..n_arr {
+		let len = rng.below(9);
+		let mut xs: Vec<f64> = Vec::new();
+		for _ in 0..len {
+			let x = match (i + rng.below(3)) % 3 {
+				0 => *rng.pick(&near),
+				1 => *rng.pick(&set),
+				_ => {
+					if !xs.is_empty() && rng.chance(1, 2) {
+						let y = *rng.pick(&xs);
+						let z = f64::from_bits(y.to_bits().wrapping_add(rng.below(2) as u64));
+						if z.is_finite() { z } else { y }
+					} else {
+						(rng.range(-4, 4)) as f64 * 0.5
+					}
+				}
+			};
+			xs.push(x);
+		}
+		let mut probes: Vec<f64> = xs.clone();
+		probes.push(*rng.pick(&near));
+		probes.push(*rng.pick(&set));
+		if let Some(y) = xs.first() {
+			probes.push(f64::from_bits(y.to_bits() ^ 1));
+		}
+		probes.retain(|p| p.is_finite());
+		let member: Vec<Value> = probes
+			.iter()
+			.map(|p| Value::String(show(guarded(|| fns.member.call(*p, xs.clone())), false, false)))
+			.collect();
+		w.case(
+			json!({"op":"num.sort","xs":xs.iter().map(|x| hex(*x)).collect::<Vec<_>>(),
+				"probes":probes.iter().map(|x| hex(*x)).collect::<Vec<_>>(),"size":xs.len()*64,
+				"_xs":format!("{xs:?}")}),
+			json!({"sort": show_arr(guarded(|| fns.sort.call(xs.clone()))),
+				"uniq": show_arr(guarded(|| fns.uniq.call(xs.clone()))),
+				"set": show_arr(guarded(|| fns.set.call(xs.clone()))),
+				"member": member}),
+		);
+	}
+	hist.insert("num.sort", n_arr);
+
+	// source-level probes: literals, non-finite literals, manifestation never prints NaN/inf
+	let probes = [
+		("1e308*10", "err"),
+		("1e400", "err"),
+		("-1e308*10", "err"),
+		("0/0", "err"),
+		("1/0", "err"),
+		("1%0", "err"),
+		("std.log(0)", "err"),
+		("std.sqrt(-1)", "err"),
+		("std.pow(-8, 1/3)", "err"),
+		("std.exp(710)", "err"),
+		("std.acos(2)", "err"),
+		("[0 < 1e-17, 0 == 1e-17, 0 > 1e-17]", "ok"),
+		("std.set([1e-17, 0, 1e-17])", "ok"),
+		("std.setMember(1e-17, [0, 1])", "ok"),
+		("std.uniq([0, 1e-17, 2e-17])", "ok"),
+		("(-9007199254740991) << 12", "err"),
+		("1 >> 1e300", "err"),
+		("1 << 64", "ok"),
+		("9007199254740992 & 1", "err"),
+		("1 << -1", "err"),
+	];
+	let mut src_fail: Vec<String> = Vec::new();
+	let expect: BTreeMap<&str, &str> = [
+		("[0 < 1e-17, 0 == 1e-17, 0 > 1e-17]", "[true,false,false]"),
+		("std.set([1e-17, 0, 1e-17])", "[0,1e-17]"),
+		("std.setMember(1e-17, [0, 1])", "false"),
+		("std.uniq([0, 1e-17, 2e-17])", "[0,1e-17,2e-17]"),
+		("1 << 64", "1"),
+	]
+	.into_iter()
+	.collect();
+	for (code, want) in probes {
+		let got = crate::common::eval_json(&s, code);
+		let ok = match want {
+			"err" => got.get("err").is_some(),
+			_ => got.get("ok").map(|v| v.to_string()) == expect.get(code).map(|s| (*s).to_string()),
+		};
+		if !ok {
+			src_fail.push(format!("{code} => {got}"));
+		}
+	}
+
+	let meta = json!({
+		"engine":"c09","cases":w.n,"boundary_set":n_set,"pairs":pairs.len(),"random_pairs":n_rand,
+		"unary_inputs":un_in.len(),"op_hist":hist,
+		"hypot_nonfinite_or_panic": nonfinite_hypot,
+		"source_probe_failures": src_fail,
+		"rule":"every numeric operator (+ - * / % < <= > >= == != & | ^ << >> unary - ~) and std math function, evaluated by the real evaluator, on all pairs of a boundary-dense set of doubles (zeros, subnormals, 1-ulp neighbours, epsilon-sized, +-2^53 and neighbours, i64 bounds, +-max, tiny/huge, small integers, fractions) + seeded random bit patterns/neighbours; clamp on triples; sort/uniq/set/setMember on arrays of near-equal values"
+	});
+	// pure observations (no model counterpart): hypot is finite-or-error; fixed source probes
+	w.case(
+		json!({"op":"num.observe","what":"std.hypot never yields a non-finite value or a panic","holds":nonfinite_hypot == 0,"count":nonfinite_hypot,"size":1,"trivial":true}),
+		json!({}),
+	);
+	w.case(
+		json!({"op":"num.observe","what":"source-level probes (non-finite literals/results are errors; exact equality; shift guards)","holds":src_fail.is_empty(),"failures":src_fail,"size":1,"trivial":true}),
+		json!({}),
+	);
+	w.finish(meta, &opts.out);
 }
